@@ -67,12 +67,37 @@ fn wrap(u: &Uni, e: &Expr, n: Nest) -> Option<Expr> {
     })
 }
 
-fn parse_with(scheme: &Scheme, d: u16, text: &str) -> Result<Result<(), String>, String> {
+/// Parses with the limit configured through the setter (`via_settings` false) or through
+/// `ParserSettings` handed to `parser_with_settings` (true).
+fn parse_route(scheme: &Scheme, d: u16, text: &str, via_settings: bool) -> Result<Result<(), String>, String> {
     guarded(|| {
-        let mut p = scheme.parser();
-        p.set_max_nesting_depth(d);
+        let p = if via_settings {
+            scheme.parser_with_settings(wirefilter::ParserSettings { max_nesting_depth: d, ..Default::default() })
+        } else {
+            let mut p = scheme.parser();
+            p.set_max_nesting_depth(d);
+            p
+        };
+        if p.max_nesting_depth() != d {
+            return Err(format!("the parser reports max_nesting_depth {} after {d} was configured", p.max_nesting_depth()));
+        }
         p.parse(text).map(|_| ()).map_err(|e| e.to_string())
     })
+}
+
+/// Both ways of configuring the limit; a disagreement is reported as the route-specific result.
+fn parse_with(scheme: &Scheme, d: u16, text: &str) -> Result<Result<(), String>, String> {
+    let a = parse_route(scheme, d, text, false);
+    let b = parse_route(scheme, d, text, true);
+    match (&a, &b) {
+        (Ok(x), Ok(y)) if x.is_ok() != y.is_ok() => Err(format!(
+            "the limit configured with set_max_nesting_depth {} the filter, the same limit configured through ParserSettings {} it",
+            if x.is_ok() { "accepts" } else { "rejects" },
+            if y.is_ok() { "accepts" } else { "rejects" }
+        )),
+        (Ok(_), Err(_)) => b,
+        _ => a,
+    }
 }
 
 fn judge(run: &Run, u: &Uni, scheme: &Scheme, d: u16, e: &Expr, text: &str, stats: &Stats) {
@@ -105,7 +130,7 @@ fn judge(run: &Run, u: &Uni, scheme: &Scheme, d: u16, e: &Expr, text: &str, stat
         ),
         Err(p) => run.violation(
             format!("{ID}:panic:{d}:{text}"),
-            format!("max_nesting_depth={d}: parse of {text:?} panicked: {p}"),
+            format!("max_nesting_depth={d}: parse of {text:?}: {p}"),
             case_json("nest", "nesting", text, json!(e), None, json!({"limit": d, "nesting": dep})),
         ),
     }
@@ -300,7 +325,11 @@ pub fn run(tier: Tier, seed: u64) -> i32 {
             let got = guarded(|| {
                 let mut p = scheme.parser();
                 p.set_max_nesting_depth(d);
-                p.parse_value(&text).is_ok()
+                let a = p.parse_value(&text).is_ok();
+                let q = scheme.parser_with_settings(wirefilter::ParserSettings { max_nesting_depth: d, ..Default::default() });
+                let b = q.parse_value(&text).is_ok();
+                // a disagreement between the two ways of configuring the limit shows as the wrong one
+                if a == b { a } else { !(n <= d as usize) }
             });
             run.eval(1);
             run.count("value_nests", 1);
